@@ -91,6 +91,13 @@ TrSer == /\ IsEvent("ser")
                  THEN Report(IF ev.check_ok THEN {} ELSE {V("valid_passes", ev.root \o "/" \o ev.plan, "check ok", "restriction error")}) /\ Count1
                  ELSE TRUE
          /\ UNCHANGED <<cur, st, refbad>>
+\* an independent XSD validator (libxml2) on the serialised document: for a plain component every plan is schema-valid.
+\* (`wide` values lie outside the documented carrier, D27, and are not serialised by the typed driver at all.)
+TrXsd == /\ IsEvent("xsd_valid")
+         /\ IF P = "C03" /\ HasRoot(ev.root) /\ Plain(S, RootComp(ev.root), 5)
+            THEN Report(IF ev.valid THEN {} ELSE {V("xsd_valid", ev.root \o "/" \o ev.plan, "accepted by the XSD validator", ev.msg)}) /\ Count1
+            ELSE TRUE
+         /\ UNCHANGED <<cur, st, refbad>>
 TrFix == /\ IsEvent("fix")
          /\ IF P = "C04" /\ HasRoot(ev.root) /\ <<"fix_ref", ev.root, ev.plan, "-">> \notin refbad
             THEN /\ Report(IF ~ev.ok THEN {V("fixpoint", ev.root \o "/" \o ev.plan, "deserialises", "Err: " \o ev.info.err)}
@@ -215,9 +222,9 @@ TrDone == /\ IsEvent("done")
              ELSE TRUE
           /\ TLCSet(1, TLCGet(1) + 1)
           /\ UNCHANGED <<cur, st, refbad>>
-Handled == {"case", "generated", "compiled", "driver_compiled", "ser", "fix", "de", "de_ref", "fix_ref", "done", "env", "env_de", "env_check", "service", "call", "soap_binding"}
+Handled == {"case", "xsd_valid", "generated", "compiled", "driver_compiled", "ser", "fix", "de", "de_ref", "fix_ref", "done", "env", "env_de", "env_check", "service", "call", "soap_binding"}
 TrOther == l <= Len(Rec) /\ ev.ev \notin Handled /\ l' = l + 1 /\ UNCHANGED <<cur, st, refbad>>
-TraceNext == TrCase \/ TrRef \/ TrSoapBinding \/ TrEnv \/ TrEnvDe \/ TrEnvCheck \/ TrService \/ TrCall \/ TrGenerated \/ TrCompiled \/ TrDriver \/ TrSer \/ TrFix \/ TrDe \/ TrDone \/ TrOther
+TraceNext == TrCase \/ TrXsd \/ TrRef \/ TrSoapBinding \/ TrEnv \/ TrEnvDe \/ TrEnvCheck \/ TrService \/ TrCall \/ TrGenerated \/ TrCompiled \/ TrDriver \/ TrSer \/ TrFix \/ TrDe \/ TrDone \/ TrOther
 TraceSpec == TraceInit /\ [][TraceNext]_tvars
 Accepted == /\ PrintT(<<"TALLY", TLCGet(1), TLCGet(2), TLCGet(3)>>)
             /\ IF TLCGet("stats").diameter = Len(Rec) THEN TRUE
